@@ -445,7 +445,7 @@ func TestVerifC36(t *testing.T) {
 			th.Signal()
 		}
 		maxL := len(tableF) - 1
-		nSig := vfScale(300000, 20000000)
+		nSig := vfScale(100000, 20000000)
 		var stop atomic.Bool
 		var outOfRange, panics, reads atomic.Int64
 		var firstBad atomic.Value
